@@ -174,6 +174,20 @@ def corr_tt_to_qtt(R, tn, rng, th):
                     res = np.linalg.norm(U @ V - A)
                     if res > 1e-6 * max(np.linalg.norm(A), 1e-300) + 1e-300:
                         resid_bad.append(dict(what='matrix_svd residual', res=float(res), shape=list(A.shape)))
+                # contract assumed by C17_core_tt_to_qtt_error_R on every call the run makes: when the cap does not bind (inner
+                # size below it, or the matrix cannot carry more), at most e is discarded (up to the sqrt(eps) floor of the
+                # eigen-decomposition route) and the right factor has orthonormal (or zero) rows
+                p_in = U.shape[1]
+                if p_in < max(1, int(min(cap, 1e9))) or p_in >= min(A.shape):
+                    res = np.linalg.norm(U @ V - A)
+                    if res > e * (1 + 1e-6) + 1e-7 * np.linalg.norm(A) + 1e-300:
+                        resid_bad.append(dict(what='matrix_svd discards more than e although the cap does not bind', res=float(res),
+                                              e=e, cap=cap, inner=p_in, shape=list(A.shape), A=A.tolist()))
+                gram = V @ V.T
+                dg = np.diag(gram)
+                if np.abs(gram - np.diag(dg)).max(initial=0.) > 1e-8 or np.any(np.minimum(np.abs(dg - 1), np.abs(dg)) > 1e-8):
+                    resid_bad.append(dict(what='matrix_svd right factor: rows are not orthonormal-or-zero', shape=list(A.shape),
+                                          A=A.tolist(), e=e, cap=cap))
         recterm = '[' + '; '.join('[' + '; '.join(f'({_coq_mat(U)}, {_coq_mat(V)})' for U, V, _ in rc) + ']' for rc in recs) + ']'
         term = (f'showF (tt_to_qtt OF (fun k cc _ => nth cc (nth k {recterm} []) dm) '
                 f'[{"; ".join(_coq_core(G, C.flit) for G in Y)}])')
@@ -247,6 +261,33 @@ def _conv_oracle(tn, Y, q, e, cap):
     G = np.transpose(FZr, perm).reshape([n] * d)
     nrm = max(np.linalg.norm(F), 1e-300)
     tol = (10 * e * nrm * q * d + 1e-10 * nrm) if cap >= 100 else None
+    # per-core clause (theorem C17_core_tt_to_qtt_error_R): when the cap does not bind inside mode k (every intra-mode bond
+    # strictly below it), the q factorisations of that core each discard at most e, so ||G_k - merged QTT cores||_F <= sqrt(q) e
+    # (plus what the eigen-decomposition route of matrix_svd cannot resolve: ~sqrt(eps) ||G_k||, known finding of C02)
+    nonbinding = True
+    gn = []
+    for k in range(d):
+        Gk = np.asarray(Y[k], dtype=float)
+        M = np.asarray(Z[k * q], dtype=float)
+        for t in range(1, q):                               # order='F' merge: the earlier bit runs fastest
+            Q = np.asarray(Z[k * q + t], dtype=float)
+            M = np.einsum('amc,cjb->ajmb', M, Q).reshape(M.shape[0], 2 * M.shape[1], Q.shape[2])   # index m + cn * j
+        gn.append(float(np.linalg.norm(Gk)))
+        # the inner size of the first factorisation (of the r1*n x r2 unfolding) is not visible in the result: V0 is multiplied
+        # back; the cap certainly does not bind there when it is at least the smaller dimension
+        free = all(rk[k * q + t] < capi for t in range(1, q)) and capi >= min(Gk.shape[0] * Gk.shape[1], Gk.shape[2])
+        nonbinding = nonbinding and free
+        if free and M.shape == Gk.shape:
+            err = float(np.linalg.norm(M - Gk))
+            bound = np.sqrt(q) * e * (1 + 1e-6) + 1e-7 * gn[-1] + 1e-300
+            if err > bound:
+                return dict(what=f'tt_to_qtt: core {k} differs from its merged QTT cores by more than sqrt(q)*e although the rank cap '
+                                 'does not bind inside that mode', input=inp, got=err, expected=float(bound), ranks=rk)
+    if tol is None and nonbinding:
+        # rigorous whole-tensor bound from the per-core bounds (multilinearity + ||chain||_F <= product of core norms)
+        ce = np.sqrt(q) * e
+        tol = sum(ce * np.prod([gn[j] + ce for j in range(d) if j != k]) for k in range(d)) * (1 + 1e-6) \
+            + 1e-7 * d * float(np.prod([g + ce for g in gn])) + 1e-300
     if tol is not None and np.linalg.norm(G - F) > tol:
         return dict(what='tt_to_qtt: QTT entry at the binary expansion differs from the tensor entry beyond the accuracy',
                     input=inp, got=float(np.linalg.norm(G - F)), expected=float(tol))
@@ -371,6 +412,21 @@ def _oracle(tn, i, q):
     return None
 
 
+def _default_cap(tn, sd):
+    inp = dict(kind='default-cap', q=14, seed=sd)
+    try:
+        rs = np.random.RandomState(sd)
+        Yv = [rs.uniform(-1, 1, size=(1, 2 ** 14, 1))]
+        Zd, Zx = tn.tt_to_qtt(Yv), tn.tt_to_qtt(Yv, 1.E-12, 100)
+        rd = [G.shape[2] for G in Zd]
+        if max(rd) > 100 or len(Zd) != len(Zx) or any(a.shape != b.shape or not np.array_equal(a, b) for a, b in zip(Zd, Zx)):
+            return dict(what='tt_to_qtt(Y) with the documented defaults (e=1e-12, r=100) differs from the explicit call / '
+                             'exceeds the default rank cap 100', input=inp, got=rd)
+    except Exception as ex:
+        return dict(what='tt_to_qtt raised on a 2^14 vector: ' + repr(ex)[:200], input=inp)
+    return None
+
+
 def search(R, ctx, deep, hints):
     tn = C.import_teneva()
     rng = ctx['rng']
@@ -487,6 +543,12 @@ def search(R, ctx, deep, hints):
                      input=dict(kind='conv', q=q, e=e, cap=cap, Y=[np.asarray(G).tolist() for G in Y]))
         if f:
             fails.append(f)
+    # calls relying on the documented defaults (e = 1e-12, r = 100) in the regime where the default cap matters: a vector of
+    # 2^14 generic entries has natural QTT-ranks up to 128
+    n_eval += 1
+    f = _default_cap(tn, rng.randrange(2 ** 31))
+    if f:
+        fails.append(f)
     # every power of two up to 2^62 is accepted by the index maps and round-trips
     for k in range(1, 63):
         n_eval += 1
@@ -517,6 +579,10 @@ def replay(data):
     tn = C.import_teneva()
     p = data['payload']
     print(data['what'], str(p.get('input'))[:2000])
+    if isinstance(p.get('input'), dict) and p['input'].get('kind') == 'default-cap':
+        f = _default_cap(tn, p['input'].get('seed', 0))
+        print('replayed:', f and f['what'])
+        return 1 if f else 0
     if isinstance(p.get('input'), dict) and p['input'].get('kind') == 'conv':
         i = p['input']
         f = _conv_oracle(tn, [np.array(G, dtype=float) for G in i['Y']], i['q'], i['e'], i['cap'])
